@@ -153,7 +153,28 @@ func f4cPool() []f4cOp {
 		pool = append(pool, f4cOp{opSpec: opSpec{sig: fmt.Sprintf("ucall/bump/%s", st), args: []*Type{st}, ret: st, alpha: [][]uint32{f4cAlpha(k)},
 			build: func(xs []Expr) Expr { return &Call{Fn: "bump_" + st.String(), Args: []Expr{xs[0]}, Ty: st, User: true} }}, class: "ucall"})
 	}
+	// a user function without parameters and with a side effect: each call returns the next value of a counter
+	for _, k := range []SK{I32, U32} {
+		st := Scalar(k)
+		pool = append(pool, f4cOp{opSpec: opSpec{sig: fmt.Sprintf("ucall0/next/%s", st), args: nil, ret: st, alpha: nil,
+			build: func(xs []Expr) Expr { return &Call{Fn: "next_" + st.String(), Args: nil, Ty: st, User: true} }}, class: "ucall0"})
+	}
 	return pool
+}
+
+// f4cNext is the parameterless user function with a side effect: nxt = nxt * 3 + 1; return nxt.
+func f4cNext(st *Type) (*Func, Global) {
+	cnt := "nxt_" + st.String()
+	c := func() Expr { return V(cnt, st) }
+	three, one := Expr(LitU(3)), Expr(LitU(1))
+	if st.S == I32 {
+		three, one = LitI(3), LitI(1)
+	}
+	f := &Func{Name: "next_" + st.String(), Ret: st, Body: []Stmt{
+		&Assign{LHS: c(), Op: "=", RHS: &Bin{Op: "+", L: &Bin{Op: "*", L: c(), R: three, Ty: st}, R: one, Ty: st}},
+		&Return{X: c()},
+	}}
+	return f, Global{Name: cnt, Space: "private", Ty: st}
 }
 
 // f4cBump is the user function with a side effect: cnt = cnt * 3 + v; return v + cnt.
@@ -305,6 +326,11 @@ func F4c(all bool) *Family {
 			st := Scalar(k)
 			if strings.Contains(s.sig, "ucall:bump:"+st.String()) {
 				f, g := f4cBump(st)
+				c.Mod.Globals = append(c.Mod.Globals, g)
+				c.Mod.Funcs = append([]*Func{f}, c.Mod.Funcs...)
+			}
+			if strings.Contains(s.sig, "ucall0:next:"+st.String()) {
+				f, g := f4cNext(st)
 				c.Mod.Globals = append(c.Mod.Globals, g)
 				c.Mod.Funcs = append([]*Func{f}, c.Mod.Funcs...)
 			}
